@@ -80,7 +80,10 @@ Definition h_cs (h : hdr) : N := N.shiftr (h_c7 h) 1.
 Definition enc_row (cells : list N) : str := map par_enc cells.
 
 (* ---- rows as structured runs ---- *)
-(* a segment: the spacing attributes in front of it (colour 0..7, size 12..15) and its character cells *)
+(* A row is read as: cells in front of the first start box; then, up to the end box (or the end of the row), alternating
+   groups of spacing attributes (colour 0..7, size 12..15) and of other cells.  A byte that failed parity is stored as
+   0x00, i.e. it reads as the colour attribute "black": it carries no text and, like any colour/size attribute, it ends
+   the run in front of it when it changes the style in force. *)
 Record rseg := mkRseg { sg_codes : list N; sg_cells : list N }.
 Record rowspec := mkRowspec {
   rw_pre : list N;             (* cells in front of the start box: anything but a start box; the spacing attributes among
@@ -90,7 +93,9 @@ Record rowspec := mkRowspec {
   rw_end : option (list N)     (* Some junk: end box followed by cells that are not spacing attributes or start box *)
 }.
 Definition is_attr (v : N) : bool := (v <? 8) || ((12 <=? v) && (v <=? 15)).
-Definition is_text_cell (v : N) : bool := (32 <=? v) && (v <? 128).
+(* inside the box every cell that is neither an attribute nor the end box is a text cell: characters 0x20..0x7f give
+   text, the other control codes (flash, conceal, mosaics, a repeated start box ...) give none *)
+Definition is_text_cell (v : N) : bool := negb (is_attr v) && negb (v =? 10) && (v <? 128).
 Definition row_cells (r : rowspec) : list N :=
   rw_pre r ++ 11 :: repeat 11 (rw_boxes r) ++ flat_map (fun s => sg_codes s ++ sg_cells s) (rw_segs r)
   ++ match rw_end r with Some j => 10 :: j | None => [] end.
@@ -108,37 +113,34 @@ Definition apply_code (s : tsty unit) (v : N) : tsty unit :=
 Definition code_effective (s : tsty unit) (v : N) : bool :=
   (12 <=? v) || negb (opt_eqb (Some v) (ts_color s)) || t_is_some (ts_dh s) || t_is_some (ts_ds s) || t_is_some (ts_dw s).
 
-(* the text of a segment in character table c *)
-Definition seg_text (c : list str) (cells : list N) : str :=
-  flat_map (fun v => nth (N.to_nat (v - 32)) c []) cells.
+(* the text of a cell and of a group of cells in character table c *)
+Definition cell_text (c : list str) (v : N) : str := if v <? 32 then [] else nth (N.to_nat (v - 32)) c [].
+Definition seg_text (c : list str) (cells : list N) : str := flat_map (cell_text c) cells.
 
-(* the runs a row denotes: one per segment with non-blank text *)
-Fixpoint seg_runs (c : list str) (s : tsty unit) (segs : list rseg) : list trunT :=
-  match segs with
+(* the run made of the text collected so far: trimmed, none when blank *)
+Definition run_of (txt : str) (s : tsty unit) : list trunT :=
+  match trim_space txt with
   | [] => []
+  | t => [mkTrun t s (count_lead 32 txt) (count_lead 32 (rev txt))]
+  end.
+(* the runs of the groups: a group whose attributes change the style in force ends the run in front of it; otherwise
+   (no attribute, or only repetitions of the colour in force) its text continues that run *)
+Fixpoint seg_runs (c : list str) (s : tsty unit) (pend : str) (segs : list rseg) : list trunT :=
+  match segs with
+  | [] => run_of pend s
   | g :: r =>
-    let s' := fold_left apply_code (sg_codes g) s in
-    let txt := seg_text c (sg_cells g) in
-    match trim_space txt with
-    | [] => seg_runs c s' r
-    | t => mkTrun t s' (count_lead 32 txt) (count_lead 32 (rev txt)) :: seg_runs c s' r
-    end
+    if existsb (code_effective s) (sg_codes g)
+    then run_of pend s ++ seg_runs c (fold_left apply_code (sg_codes g) s) (seg_text c (sg_cells g)) r
+    else seg_runs c s (pend ++ seg_text c (sg_cells g)) r
   end.
 Definition pre_style (r : rowspec) : tsty unit := fold_left apply_code (filter is_attr (rw_pre r)) (tsty0 unit tt).
-Definition row_runs (c : list str) (r : rowspec) : list trunT := seg_runs c (pre_style r) (rw_segs r).
+Definition row_runs (c : list str) (r : rowspec) : list trunT := seg_runs c (pre_style r) [] (rw_segs r).
 
-(* every segment after the first begins with an attribute that starts a new run; cells are text cells *)
-Fixpoint segs_ok (first : bool) (s : tsty unit) (segs : list rseg) : bool :=
-  match segs with
-  | [] => true
-  | g :: r =>
-    forallb is_attr (sg_codes g) && forallb is_text_cell (sg_cells g)
-    && (first || match sg_codes g with v :: _ => code_effective s v | [] => false end)
-    && segs_ok false (fold_left apply_code (sg_codes g) s) r
-  end.
+Definition segs_ok (segs : list rseg) : bool :=
+  forallb (fun g => forallb is_attr (sg_codes g) && forallb is_text_cell (sg_cells g)) segs.
 Definition junk_cell (v : N) : bool := negb (v =? 11).
 Definition rowspec_ok (r : rowspec) : bool :=
-  forallb junk_cell (rw_pre r) && segs_ok true (pre_style r) (rw_segs r)
+  forallb junk_cell (rw_pre r) && segs_ok (rw_segs r)
   && match rw_end r with Some j => forallb (fun v => negb (is_attr v) && negb (v =? 11)) j | None => true end.
 
 (* ---- what a data unit is, read with the standard's decoders ---- *)
@@ -358,19 +360,49 @@ Definition mux_ok_auto (s : sched) (m : mux) : bool :=
      end
   && forallb (inst_mux_ok (s_mag s) (s_pn s)) (combine (s_insts s) (mx_insts m)).
 
-(* the delivered list: PES packets (time, data identifier, data units) whose units in order are the events *)
-Definition pes := (Z * N * list (N * str))%type.
+(* the delivered list.  What the demuxer hands over for one PES packet of the teletext PID is one of:
+   - PUnits t ident us trail: an EBU teletext payload (data identifier 0x10..0x1f) with presentation time t carrying the
+     complete data units us, possibly followed by a truncated last unit (trail: fewer than two bytes, or a length byte
+     that runs past the end of the payload);
+   - PNoTime payload: a PES packet for which no time can be computed (the zero time): dropped altogether, it does not
+     even move the first/last presentation time;
+   - PInert t payload: an empty payload, or one whose data identifier is outside 0x10..0x1f: nothing of it is read, but
+     its time takes part in the first and last presentation time, as in the code.
+   The units of the PUnits packets, in order, are the events of the schedule and multiplexing. *)
+Inductive pes :=
+| PUnits (t : Z) (ident : N) (us : list (N * str)) (trail : str)
+| PNoTime (payload : str)
+| PInert (t : Z) (payload : str).
 Definition enc_pes (p : pes) : option Z * str :=
-  let '(t, ident, us) := p in (Some t, ident :: concat (map enc_unit us)).
-Definition pes_units (p : pes) : list tunit := let '(t, _, us) := p in map (fun u => (t, u)) us.
-Definition pes_ok (p : pes) : bool := let '(_, ident, _) := p in (16 <=? ident) && (ident <=? 31).
+  match p with
+  | PUnits t ident us trail => (Some t, ident :: concat (map enc_unit us) ++ trail)
+  | PNoTime payload => (None, payload)
+  | PInert t payload => (Some t, payload)
+  end.
+Definition pes_units (p : pes) : list tunit :=
+  match p with PUnits t _ us _ => map (fun u => (t, u)) us | _ => [] end.
+Definition trail_ok (g : str) : bool :=
+  match g with _ :: len :: rest => Nat.ltb (length rest) (N.to_nat len) | _ => true end.
+Definition pes_ok (p : pes) : bool :=
+  match p with
+  | PUnits _ ident _ trail => (16 <=? ident) && (ident <=? 31) && trail_ok trail
+  | PNoTime _ => true
+  | PInert _ payload => match payload with [] => true | ident :: _ => negb ((16 <=? ident) && (ident <=? 31)) end
+  end.
+Definition pes_time (p : pes) : option Z :=
+  match p with PUnits t _ _ _ => Some t | PNoTime _ => None | PInert t _ => Some t end.
+(* first / last presentation time: minimum / maximum over the packets that have a time *)
 Fixpoint tmin (l : list pes) (acc : option Z) : option Z :=
   match l with
   | [] => acc
-  | (t, _, _) :: r => tmin r (Some (match acc with Some x => if (t <? x)%Z then t else x | None => t end))
+  | p :: r => tmin r (match pes_time p with
+                      | Some t => Some (match acc with Some x => if (t <? x)%Z then t else x | None => t end)
+                      | None => acc end)
   end.
 Fixpoint tmax (l : list pes) (acc : option Z) : option Z :=
   match l with
   | [] => acc
-  | (t, _, _) :: r => tmax r (Some (match acc with Some x => if (x <? t)%Z then t else x | None => t end))
+  | p :: r => tmax r (match pes_time p with
+                      | Some t => Some (match acc with Some x => if (x <? t)%Z then t else x | None => t end)
+                      | None => acc end)
   end.
